@@ -996,10 +996,303 @@ pub fn wiring_sweep(partial: bool) -> Vec<(&'static str, Result<(), String>)> {
             eq(format!("{:?}", futures_io::AsyncSeek::poll_seek(std::pin::Pin::new(&mut u), &mut cx, futures_io::SeekFrom::End(-1))), "Ready(Ok(12))".to_string())
         });
     }
+    // ---- every remaining method of every mirrored trait, each through its own entry point ----
+    probe("Hasher::finish", &mut || {
+        let u = mk!(HasherMock::finish.next_call(&all()).returns(77u64));
+        eq(std::hash::Hasher::finish(&u), 77)
+    });
+    probe("Hasher::write", &mut || {
+        let mut u = mk!(HasherMock::write.next_call(&|m| m.func(|b: &&[u8], _| *b == [1u8, 2])).returns(()));
+        std::hash::Hasher::write(&mut u, &[1, 2]);
+        Ok(())
+    });
+    macro_rules! hasher_direct {
+        ($($name:literal, $entry:ident, $ty:ty, $val:expr;)*) => {$(
+            probe($name, &mut || {
+                let mut u = mk!(HasherMock::$entry.next_call(&|m| m.func(|i: &$ty, _| *i == $val)).returns(()));
+                std::hash::Hasher::$entry(&mut u, $val);
+                Ok(())
+            });
+        )*};
+    }
+    hasher_direct! {
+        "Hasher::write_u8(mocked directly)", write_u8, u8, 7u8;
+        "Hasher::write_u16(mocked directly)", write_u16, u16, 7u16;
+        "Hasher::write_u32(mocked directly)", write_u32, u32, 7u32;
+        "Hasher::write_u64(mocked directly)", write_u64, u64, 7u64;
+        "Hasher::write_u128(mocked directly)", write_u128, u128, 7u128;
+        "Hasher::write_usize(mocked directly)", write_usize, usize, 7usize;
+        "Hasher::write_i8(mocked directly)", write_i8, i8, -7i8;
+        "Hasher::write_i16(mocked directly)", write_i16, i16, -7i16;
+        "Hasher::write_i32(mocked directly)", write_i32, i32, -7i32;
+        "Hasher::write_i64(mocked directly)", write_i64, i64, -7i64;
+        "Hasher::write_i128(mocked directly)", write_i128, i128, -7i128;
+        "Hasher::write_isize(mocked directly)", write_isize, isize, -7isize;
+    }
+    probe("Write::write", &mut || {
+        let mut u = mk!(WriteMock::write.next_call(&|m| m.func(|b: &&[u8], _| *b == b"ab")).returns(Ok(1)));
+        eq(Write::write(&mut u, b"ab").ok(), Some(1))
+    });
+    probe("Write::flush", &mut || {
+        let mut u = mk!(WriteMock::flush.next_call(&all()).returns(Ok(())));
+        eq(Write::flush(&mut u).is_ok(), true)
+    });
+    probe("Write::write_vectored(mocked directly)", &mut || {
+        let mut u = mk!(WriteMock::write_vectored.next_call(&all()).returns(Ok(5)));
+        eq(Write::write_vectored(&mut u, &[IoSlice::new(b"x")]).ok(), Some(5))
+    });
+    probe("Read::read", &mut || {
+        let mut u = mk!(ReadMock::read.next_call(&all()).answers(&|_, buf| {
+            buf[0] = 9;
+            Ok(1)
+        }));
+        let mut b = [0u8; 2];
+        let r = Read::read(&mut u, &mut b).ok();
+        eq((r, b[0]), (Some(1), 9))
+    });
+    probe("Read::read_vectored(mocked directly)", &mut || {
+        let mut u = mk!(ReadMock::read_vectored.next_call(&all()).returns(Ok(6)));
+        let mut b = [0u8; 2];
+        eq(Read::read_vectored(&mut u, &mut [IoSliceMut::new(&mut b)]).ok(), Some(6))
+    });
+    probe("Read::read_to_string(mocked directly)", &mut || {
+        let mut u = mk!(ReadMock::read_to_string.next_call(&all()).answers(&|_, s| {
+            s.push_str("hey");
+            Ok(3)
+        }));
+        let mut s = String::new();
+        let r = Read::read_to_string(&mut u, &mut s).ok();
+        eq((r, s), (Some(3), "hey".to_string()))
+    });
+    probe("Read::read_exact(mocked directly)", &mut || {
+        let mut u = mk!(ReadMock::read_exact.next_call(&all()).answers(&|_, b| {
+            b[1] = 4;
+            Ok(())
+        }));
+        let mut b = [0u8; 2];
+        let r = Read::read_exact(&mut u, &mut b).is_ok();
+        eq((r, b[1]), (true, 4))
+    });
+    probe("Seek::seek", &mut || {
+        let mut u = mk!(SeekMock::seek.next_call(&|m| m.func(|p: &SeekFrom, _| *p == SeekFrom::Start(3))).returns(Ok(3)));
+        eq(Seek::seek(&mut u, SeekFrom::Start(3)).ok(), Some(3))
+    });
+    probe("Seek::rewind(mocked directly)", &mut || {
+        let mut u = mk!(SeekMock::rewind.next_call(&all()).returns(Ok(())));
+        eq(Seek::rewind(&mut u).is_ok(), true)
+    });
+    probe("BufRead::fill_buf", &mut || {
+        let mut u = mk!(BufReadMock::fill_buf.next_call(&all()).returns(Ok::<Vec<u8>, std::io::Error>(vec![5u8, 6])));
+        eq(BufRead::fill_buf(&mut u).ok().map(|b| b.to_vec()), Some(vec![5u8, 6]))
+    });
+    probe("BufRead::consume", &mut || {
+        let mut u = mk!(BufReadMock::consume.next_call(&|m| m.func(|n: &usize, _| *n == 4)).returns(()));
+        BufRead::consume(&mut u, 4);
+        Ok(())
+    });
+    probe("BufRead::read_until(mocked directly)", &mut || {
+        let mut u = mk!(BufReadMock::read_until.next_call(&all()).answers(&|_, byte, buf| {
+            buf.push(byte);
+            Ok(1)
+        }));
+        let mut v = vec![];
+        let r = BufRead::read_until(&mut u, b'q', &mut v).ok();
+        eq((r, v), (Some(1), vec![b'q']))
+    });
+    probe("BufRead::read_line(mocked directly)", &mut || {
+        let mut u = mk!(BufReadMock::read_line.next_call(&all()).answers(&|_, s| {
+            s.push_str("line\n");
+            Ok(5)
+        }));
+        let mut s = String::new();
+        let r = BufRead::read_line(&mut u, &mut s).ok();
+        eq((r, s), (Some(5), "line\n".to_string()))
+    });
+    probe("DelayNs::delay_ns", &mut || {
+        let mut u = mk!(hal::delay::DelayNsMock::delay_ns.next_call(&|m| m.func(|ns: &u32, _| *ns == 76)).returns(()));
+        DelayNs::delay_ns(&mut u, 76);
+        Ok(())
+    });
+    probe("i2c::Error::kind", &mut || {
+        let u = mk!(hal::i2c::ErrorMock::kind.next_call(&all()).returns(embedded_hal::i2c::ErrorKind::Bus));
+        eq(format!("{:?}", embedded_hal::i2c::Error::kind(&u)), "Bus".to_string())
+    });
+    probe("pwm::Error::kind", &mut || {
+        let u = mk!(hal::pwm::ErrorMock::kind.next_call(&all()).returns(embedded_hal::pwm::ErrorKind::Other));
+        eq(format!("{:?}", embedded_hal::pwm::Error::kind(&u)), "Other".to_string())
+    });
+    probe("spi::Error::kind", &mut || {
+        let u = mk!(hal::spi::ErrorMock::kind.next_call(&all()).returns(embedded_hal::spi::ErrorKind::Overrun));
+        eq(format!("{:?}", embedded_hal::spi::Error::kind(&u)), "Overrun".to_string())
+    });
+    probe("I2c::transaction", &mut || {
+        let mut u = mk!(hal::i2c::I2cMock::transaction.with_types::<u8>().next_call(&all()).returns(Ok(())));
+        eq(I2c::transaction(&mut u, 3u8, &mut []).is_ok(), true)
+    });
+    probe("I2c::read(mocked directly)", &mut || {
+        let mut u = mk!(hal::i2c::I2cMock::read.with_types::<u8>().next_call(&all()).answers(&|_, _, b| {
+            b[0] = 31;
+            Ok(())
+        }));
+        let mut b = [0u8; 1];
+        let r = I2c::read(&mut u, 3u8, &mut b).is_ok();
+        eq((r, b[0]), (true, 31))
+    });
+    probe("I2c::write(mocked directly)", &mut || {
+        let mut u = mk!(hal::i2c::I2cMock::write.with_types::<u8>().next_call(&all()).returns(Ok(())));
+        eq(I2c::write(&mut u, 3u8, &[1]).is_ok(), true)
+    });
+    probe("I2c::write_read(mocked directly)", &mut || {
+        let mut u = mk!(hal::i2c::I2cMock::write_read.with_types::<u8>().next_call(&all()).answers(&|_, _, w, r| {
+            r[0] = w[0] + 2;
+            Ok(())
+        }));
+        let mut b = [0u8; 1];
+        let r = I2c::write_read(&mut u, 3u8, &[40], &mut b).is_ok();
+        eq((r, b[0]), (true, 42))
+    });
+    probe("SetDutyCycle::max_duty_cycle", &mut || {
+        let u = mk!(hal::pwm::SetDutyCycleMock::max_duty_cycle.next_call(&all()).returns(900u16));
+        eq(SetDutyCycle::max_duty_cycle(&u), 900)
+    });
+    probe("SetDutyCycle::set_duty_cycle", &mut || {
+        let mut u = mk!(hal::pwm::SetDutyCycleMock::set_duty_cycle.next_call(&|m| m.func(|d: &u16, _| *d == 12)).returns(Ok(())));
+        eq(SetDutyCycle::set_duty_cycle(&mut u, 12).is_ok(), true)
+    });
+    probe("SetDutyCycle::set_duty_cycle_fully_off(mocked directly)", &mut || {
+        let mut u = mk!(hal::pwm::SetDutyCycleMock::set_duty_cycle_fully_off.next_call(&all()).returns(Ok(())));
+        eq(SetDutyCycle::set_duty_cycle_fully_off(&mut u).is_ok(), true)
+    });
+    probe("SetDutyCycle::set_duty_cycle_fully_on(mocked directly)", &mut || {
+        let mut u = mk!(hal::pwm::SetDutyCycleMock::set_duty_cycle_fully_on.next_call(&all()).returns(Ok(())));
+        eq(SetDutyCycle::set_duty_cycle_fully_on(&mut u).is_ok(), true)
+    });
+    probe("SetDutyCycle::set_duty_cycle_fraction(mocked directly)", &mut || {
+        let mut u = mk!(hal::pwm::SetDutyCycleMock::set_duty_cycle_fraction.next_call(&|m| m.func(|(n, d), _| *n == 1 && *d == 3)).returns(Ok(())));
+        eq(SetDutyCycle::set_duty_cycle_fraction(&mut u, 1, 3).is_ok(), true)
+    });
+    probe("SetDutyCycle::set_duty_cycle_percent(mocked directly)", &mut || {
+        let mut u = mk!(hal::pwm::SetDutyCycleMock::set_duty_cycle_percent.next_call(&|m| m.func(|p: &u8, _| *p == 40)).returns(Ok(())));
+        eq(SetDutyCycle::set_duty_cycle_percent(&mut u, 40).is_ok(), true)
+    });
+    probe("SpiDevice::transaction", &mut || {
+        let mut u = mk!(hal::spi::SpiDeviceMock::transaction.with_types::<u8>().next_call(&all()).returns(Ok(())));
+        eq(SpiDevice::<u8>::transaction(&mut u, &mut []).is_ok(), true)
+    });
+    probe("SpiDevice::read(mocked directly)", &mut || {
+        let mut u = mk!(hal::spi::SpiDeviceMock::read.with_types::<u8>().next_call(&all()).answers(&|_, b| {
+            b[0] = 51;
+            Ok(())
+        }));
+        let mut b = [0u8; 1];
+        let r = SpiDevice::read(&mut u, &mut b).is_ok();
+        eq((r, b[0]), (true, 51))
+    });
+    probe("SpiDevice::write(mocked directly)", &mut || {
+        let mut u = mk!(hal::spi::SpiDeviceMock::write.with_types::<u8>().next_call(&|m| m.func(|w: &&[u8], _| *w == [6u8])).returns(Ok(())));
+        eq(SpiDevice::write(&mut u, &[6u8]).is_ok(), true)
+    });
+    probe("SpiDevice::transfer(mocked directly)", &mut || {
+        let mut u = mk!(hal::spi::SpiDeviceMock::transfer.with_types::<u8>().next_call(&all()).answers(&|_, r, w| {
+            r[0] = w[0] + 3;
+            Ok(())
+        }));
+        let mut b = [0u8; 1];
+        let r = SpiDevice::transfer(&mut u, &mut b, &[8u8]).is_ok();
+        eq((r, b[0]), (true, 11))
+    });
+    probe("SpiDevice::transfer_in_place(mocked directly)", &mut || {
+        let mut u = mk!(hal::spi::SpiDeviceMock::transfer_in_place.with_types::<u8>().next_call(&all()).answers(&|_, b| {
+            b[0] = 61;
+            Ok(())
+        }));
+        let mut b = [0u8; 1];
+        let r = SpiDevice::transfer_in_place(&mut u, &mut b).is_ok();
+        eq((r, b[0]), (true, 61))
+    });
+    {
+        use unimock::mock::tokio_1::io as t;
+        let w2 = waker.clone();
+        probe("tokio AsyncWrite::poll_write_vectored(mocked directly)", &mut || {
+            let mut u = mk!(t::AsyncWriteMock::poll_write_vectored.next_call(&all()).returns(Poll::Ready(Ok(7))));
+            let mut cx = Context::from_waker(&w2);
+            let bufs = [IoSlice::new(b"cd"), IoSlice::new(b"ef")];
+            let r = tokio::io::AsyncWrite::poll_write_vectored(std::pin::Pin::new(&mut u), &mut cx, &bufs);
+            eq(format!("{r:?}"), "Ready(Ok(7))".to_string())
+        });
+        probe("tokio AsyncWrite::is_write_vectored(mocked directly)", &mut || {
+            let u = mk!(t::AsyncWriteMock::is_write_vectored.next_call(&all()).returns(true));
+            eq(tokio::io::AsyncWrite::is_write_vectored(&u), true)
+        });
+        let w2 = waker.clone();
+        probe("tokio AsyncBufRead::poll_fill_buf", &mut || {
+            let mut u = mk!(t::AsyncBufReadMock::poll_fill_buf.next_call(&all()).returns(Poll::Ready(Ok::<Vec<u8>, std::io::Error>(vec![1u8, 2]))));
+            let mut cx = Context::from_waker(&w2);
+            let r = tokio::io::AsyncBufRead::poll_fill_buf(std::pin::Pin::new(&mut u), &mut cx);
+            eq(format!("{r:?}"), "Ready(Ok([1, 2]))".to_string())
+        });
+        probe("tokio AsyncBufRead::consume", &mut || {
+            let mut u = mk!(t::AsyncBufReadMock::consume.next_call(&|m| m.func(|n: &usize, _| *n == 2)).returns(()));
+            tokio::io::AsyncBufRead::consume(std::pin::Pin::new(&mut u), 2);
+            Ok(())
+        });
+    }
+    {
+        use unimock::mock::futures_0_3::io as f;
+        let w2 = waker.clone();
+        probe("futures AsyncRead::poll_read", &mut || {
+            let mut u = mk!(f::AsyncReadMock::poll_read.next_call(&all()).answers(&|_, _, buf| {
+                buf[0] = 5;
+                Poll::Ready(Ok(1))
+            }));
+            let mut cx = Context::from_waker(&w2);
+            let mut b = [0u8; 2];
+            let r = futures_io::AsyncRead::poll_read(std::pin::Pin::new(&mut u), &mut cx, &mut b);
+            eq((format!("{r:?}"), b[0]), ("Ready(Ok(1))".to_string(), 5))
+        });
+        let w2 = waker.clone();
+        probe("futures AsyncRead::poll_read_vectored(mocked directly)", &mut || {
+            let mut u = mk!(f::AsyncReadMock::poll_read_vectored.next_call(&all()).returns(Poll::Ready(Ok(9))));
+            let mut cx = Context::from_waker(&w2);
+            let mut b = [0u8; 3];
+            let r = {
+                let mut bufs = [IoSliceMut::new(&mut b)];
+                futures_io::AsyncRead::poll_read_vectored(std::pin::Pin::new(&mut u), &mut cx, &mut bufs)
+            };
+            eq(format!("{r:?}"), "Ready(Ok(9))".to_string())
+        });
+        let w2 = waker.clone();
+        probe("futures AsyncWrite::poll_write", &mut || {
+            let mut u = mk!(f::AsyncWriteMock::poll_write.next_call(&all()).answers(&|_, _, buf| Poll::Ready(Ok(buf.len() + 200))));
+            let mut cx = Context::from_waker(&w2);
+            let r = futures_io::AsyncWrite::poll_write(std::pin::Pin::new(&mut u), &mut cx, b"abc");
+            eq(format!("{r:?}"), "Ready(Ok(203))".to_string())
+        });
+        let w2 = waker.clone();
+        probe("futures AsyncWrite::poll_write_vectored(mocked directly)", &mut || {
+            let mut u = mk!(f::AsyncWriteMock::poll_write_vectored.next_call(&all()).returns(Poll::Ready(Ok(8))));
+            let mut cx = Context::from_waker(&w2);
+            let bufs = [IoSlice::new(b"cd"), IoSlice::new(b"ef")];
+            let r = futures_io::AsyncWrite::poll_write_vectored(std::pin::Pin::new(&mut u), &mut cx, &bufs);
+            eq(format!("{r:?}"), "Ready(Ok(8))".to_string())
+        });
+        let w2 = waker.clone();
+        probe("futures AsyncBufRead::poll_fill_buf", &mut || {
+            let mut u = mk!(f::AsyncBufReadMock::poll_fill_buf.next_call(&all()).returns(Poll::Ready(Ok::<Vec<u8>, std::io::Error>(vec![3u8, 4]))));
+            let mut cx = Context::from_waker(&w2);
+            let r = futures_io::AsyncBufRead::poll_fill_buf(std::pin::Pin::new(&mut u), &mut cx);
+            eq(format!("{r:?}"), "Ready(Ok([3, 4]))".to_string())
+        });
+        probe("futures AsyncBufRead::consume", &mut || {
+            let mut u = mk!(f::AsyncBufReadMock::consume.next_call(&|m| m.func(|n: &usize, _| *n == 2)).returns(()));
+            futures_io::AsyncBufRead::consume(std::pin::Pin::new(&mut u), 2);
+            Ok(())
+        });
+    }
     out
 }
 
-pub const RULE: &str = "scripts = generated scripts of chunk sizes / short transfers / Interrupted and other errors / payload bytes, replayed by the mocked required methods of std::io::{Write, Read, BufRead, Seek}, core Hasher and Display, embedded-hal {DelayNs, OutputPin, StatefulOutputPin, I2c, SpiDevice, SetDutyCycle}, each driven through an upstream provided method (write_all, write_fmt, write_vectored, read_exact, read_to_end, read_to_string, read_vectored, read_line, read_until, rewind, stream_position, write_u8..write_isize, format! with width/fill, delay_us/ms incl. the overflow-splitting range, set_state, toggle, read/write/write_read, read/write/transfer/transfer_in_place, set_duty_cycle_fully_off/on/fraction/percent); wiring = one entry point configured at a time for 40 methods of the mirrored traits (incl. tokio and futures-io poll_* methods and their vectored defaults), enumerated. Non-trivial = the script has a short transfer or error before completion, or >= 2 required-method calls; distinct = distinct case";
+pub const RULE: &str = "scripts = generated scripts of chunk sizes / short transfers / Interrupted and other errors / payload bytes, replayed by the mocked required methods of std::io::{Write, Read, BufRead, Seek}, core Hasher and Display, embedded-hal {DelayNs, OutputPin, StatefulOutputPin, I2c, SpiDevice, SetDutyCycle}, each driven through an upstream provided method (write_all, write_fmt, write_vectored, read_exact, read_to_end, read_to_string, read_vectored, read_line, read_until, rewind, stream_position, write_u8..write_isize, format! with width/fill, delay_us/ms incl. the overflow-splitting range, set_state, toggle, read/write/write_read, read/write/transfer/transfer_in_place, set_duty_cycle_fully_off/on/fraction/percent); wiring = one entry point configured at a time for every method of the mirrored traits, required and provided (mocked directly) (incl. tokio and futures-io poll_* methods and their vectored defaults), enumerated. Non-trivial = the script has a short transfer or error before completion, or >= 2 required-method calls; distinct = distinct case";
 
 pub fn run(ctx: &Ctx) -> Verdict {
     let mut v = Verdict::new("exploration", RULE);
